@@ -5,5 +5,6 @@ CONSTANTS
   FORWARD_WAKER = TRUE
   READY_DRAINS = TRUE
   FILTER_MODE = "filter"
+  CHAIN_MODE = "chain"
 INVARIANT TraceInv
 CHECK_DEADLOCK FALSE
